@@ -231,8 +231,14 @@ func (s *Stream) read(p []byte) (int, error) {
 		s.MaxPos = s.pos
 	}
 	if s.D.Scribble {
-		for i := n; i < len(p); i++ {
+		// the head and the very end of the unused part (all of it when it is small)
+		for i := n; i < len(p) && i < n+4096; i++ {
 			p[i] = 0xA5 ^ byte(i)
+		}
+		for i := len(p) - 64; i < len(p); i++ {
+			if i >= n {
+				p[i] = 0xA5 ^ byte(i)
+			}
 		}
 	}
 	if s.pos == end {
@@ -255,6 +261,10 @@ type FileSpec struct {
 	OpenErr error // returned by Open when non-nil
 	IsDir   bool  // Open succeeds, Read fails with EISDIR
 	ReadErr error // error used for the injected read fault (default: EIO wrapped in *PathError by the shim)
+	// StatSize > 0: Stat reports StatSize-1 bytes instead of len(Data) - a procfs or
+	// sysfs entry (regular file, size 0, content nevertheless), a file that grew
+	// after it was stat-ed, a stale fs.File size. 0: the accurate size.
+	StatSize int
 }
 
 // FS is the simulated file table. It is written only between runs (by the
